@@ -5,6 +5,13 @@
 # moved into a helper that has no contract) - those are reported as "brittle (expected)".
 cd "$(dirname "$0")" || exit 2
 PAT="${1:-.}"; q=0; b=0; bad=0
+# work on a snapshot (engine binary, spec, known findings, replay drivers, repository HEAD) so that the tree can be edited meanwhile
+SNAP=$(mktemp -d /tmp/verif-snap.XXXXXX)
+trap 'rm -rf "$SNAP"' EXIT INT TERM
+mkdir -p "$SNAP/selftest"
+cp -r ../spec ../known_findings.json ../replay ../bin "$SNAP"/
+cp ../selftest/run.sh "$SNAP/selftest/" 2>/dev/null
+export VERIF_DIR="$SNAP" GOVC_BIN="$SNAP/bin/govc" REFRUN_REV=$(git -C /repo rev-parse HEAD)
 for f in refactors/*.diff; do
   n=$(basename "$f" .diff); echo "$n" | grep -Eq "$PAT" || continue
   out=$(sh ../tools/refrun.sh "$PWD/$f" 2>&1 | grep -v conda)
